@@ -385,6 +385,24 @@ fn corpus() -> (Vec<(MDs, &'static str)>, Vec<(J, &'static str)>) {
         let mut g = Rng::new(0xf10a8);
         ds.push((one(0x0018_0051, VR::FL, MValue::Prim(MPrim::F32((0..48).map(|_| loop { let b = g.next() as u32; if f32::from_bits(b).is_finite() { break b } }).collect()))), "corpus:binary32-text"));
     }
+    // sizes: binary values around 4096 / 8192 / 12288 bytes (block-wise encoders), long text, many values,
+    // many elements, deep nesting
+    {
+        let mut g = Rng::new(0x512e5);
+        let mut bytes = |n: usize| -> Vec<i128> { (0..n).map(|_| g.below(256) as i128).collect() };
+        ds.push((one(0x7fe0_0010, VR::OB, MValue::Prim(MPrim::Int(IK::U8, bytes(4097)))), "corpus:sizes"));
+        ds.push((one(0x7fe0_0010, VR::OB, MValue::Prim(MPrim::Int(IK::U8, bytes(4096)))), "corpus:sizes"));
+        ds.push((one(0x7fe0_0010, VR::UN, MValue::Prim(MPrim::Int(IK::U8, bytes(12289)))), "corpus:sizes"));
+        ds.push((one(0x7fe0_0010, VR::OW, MValue::Prim(MPrim::Int(IK::U16, (0..2050).map(|i| (i * 31 % 65536) as i128).collect()))), "corpus:sizes"));
+        ds.push((one(0x7fe0_0009, VR::OD, MValue::Prim(MPrim::F64((0..1025u64).map(|i| (i as f64 * 0.37 - 100.0).to_bits()).collect()))), "corpus:sizes"));
+        ds.push((one(0x0008_0008, VR::CS, MValue::Prim(MPrim::Strs((0..300).map(|i| format!("V{}", i)).collect()))), "corpus:sizes"));
+        ds.push((one(0x0008_2111, VR::ST, MValue::Prim(MPrim::Str("lorem ipsum \u{e9} ".repeat(300)))), "corpus:sizes"));
+        ds.push((one(0x0028_3006, VR::US, MValue::Prim(MPrim::Int(IK::U16, (0..1000).map(|i| (i * 7 % 65536) as i128).collect()))), "corpus:sizes"));
+        ds.push((MDs((0..300u32).map(|i| (0x0009_0000 + i * 3, ALL_VRS[(i as usize * 5) % 34], if ALL_VRS[(i as usize * 5) % 34] == VR::SQ { MValue::Seq(vec![]) } else { MValue::Prim(MPrim::Empty) })).collect()), "corpus:sizes"));
+        let mut deep = one(0x0010_0020, VR::LO, MValue::Prim(MPrim::Strs(vec!["leaf".into()])));
+        for level in 0..8u32 { deep = MDs(vec![(0x0008_1110 + level, VR::SQ, MValue::Seq(vec![deep.clone(), MDs(vec![])])), (0x0020_000d, VR::UI, MValue::Prim(MPrim::Strs(vec![format!("1.2.{}", level)])))]); }
+        ds.push((deep, "corpus:sizes"));
+    }
     // 64-bit integers under every integer kind and VR
     for vr in [VR::SV, VR::UV, VR::UL, VR::DS, VR::IS, VR::LO] { for k in [IK::I64, IK::U64, IK::U32] { ds.push((one(0x0009_0001, vr, MValue::Prim(MPrim::Int(k, int_pool(k)))), "corpus:wide-integers")); } }
     (ds, docs)
